@@ -29,6 +29,9 @@ VarForms == {"float64", "int64"}
 \* (kilometres, ten-minute units).  A point between two levels lies in the cell below it whatever the type of the axis:
 \* the point's value is compared, it is not converted to the type of the axis.
 AxisForms == {"float", "whole"}
+\* BufferForms: Pieces(seg) is a function of the coordinates handed over - whether they arrive in new arrays or in the arrays
+\* of the previous flight refilled in place (per-flight buffers), on the same grid object or another one
+BufferForms == {"fresh", "refilled"}
 \* NearParallel: a segment along a latitude grid line that is tilted by less than any grid scale (a millimetre) still crosses
 \* that line where the two meet - at its middle, if it starts as far below the line as it ends above: its pieces before the
 \* middle lie in the row of the start point, those after it in the row of the end point (the harness derives these cases from
